@@ -697,6 +697,10 @@ def run(ctx):
     rules.append(r10_12(prog))
     rules.append(r10_13(prog))
     rules.append(r10_14(prog))
+    # R10.15: a name taken from a formatter's static buffer is not printed after the buffer was refilled (rule R12.7): the
+    # emitted identifier would be another one and the output would not compile
+    from . import c12
+    rules.append(c12.r12_7(prog, load_tables("c12"), rid="R10.15"))
     # R10.9: asn1c terminates: exact rule over every loop of the compiler
     from . import termination
     rules.append(termination.rule_for(prog, "R10.9", "the compiler (parser actions, fixer, printer, code generator)", set(prog.funcs.keys()), 250))
